@@ -32,11 +32,20 @@ def main(argv=None) -> int:
         except ModuleNotFoundError:
             print(f"ANALYSIS-ERROR property={pid} no rule module rules/{pid.lower()}.py")
             return 2
+        import time
+        t0 = time.time()
         program = Program(args.repo)
         ctx = Ctx(pid, program, args.tier, seed)
-        mod.run(ctx)
-        if hasattr(mod, "selfcheck"):
-            mod.selfcheck(ctx)
+        ctx.t0 = t0
+        try:
+            mod.run(ctx)
+        except AnalysisError as e:
+            # findings already established stand on their own; report them, then the error
+            if ctx.findings:
+                rc = finish(ctx, args.evidence_dir)
+                print(f"ANALYSIS-ERROR property={pid} {e} (after the findings above)")
+                return rc if rc else 2
+            raise
         rc = finish(ctx, args.evidence_dir)
         if args.replay:
             _replay(ctx, args.replay, program)
